@@ -19,12 +19,12 @@ Base == [logId |-> 1, prefix |-> "a", isReadonly |-> FALSE,
          pubKey |-> "absent", privKey |-> "ok", isMirror |-> FALSE, frozenSth |-> "absent",
          start |-> TsAbsent, limit |-> TsAbsent, mmd |-> 0, expected |-> 0,
          rejectExpired |-> FALSE, rejectUnexpired |-> FALSE, ekus |-> "none",
-         backend |-> "trillian", connStr |-> "", backendName |-> ""]
+         backend |-> "trillian", connStr |-> ConnEmpty, backendName |-> ""]
 MirrorBase == [Base EXCEPT !.isMirror = TRUE, !.pubKey = "ecdsa", !.privKey = "absent"]
 FrozenBase == [Base EXCEPT !.pubKey = "ecdsa", !.frozenSth = "okSigned", !.isReadonly = TRUE]
 \* every optional field in use
 RichBase == [Base EXCEPT !.pubKey = "rsa", !.start = Ts(1, 2), !.limit = Ts(2, 1), !.mmd = 10, !.expected = 5,
-                         !.rejectExpired = TRUE, !.ekus = "known", !.backend = "ctfe", !.connStr = "mysql://ok",
+                         !.rejectExpired = TRUE, !.ekus = "known", !.backend = "ctfe", !.connStr = ConnMysqlOK,
                          !.prefix = "b"]
 Bases == {Base, MirrorBase, FrozenBase, RichBase}
 
@@ -37,6 +37,8 @@ WindowCore == [start : TsCore, limit : TsCore]
 WindowSlim == [start : TsCore \ {Ts(2, 0)}, limit : TsCore \ {Ts(2, 0)}]
 \* every named spelling of "the frozen STH does not verify" with every state of the keys and the log kind, over every base
 FrozenSweepGroup == [pubKey : PubKeyStates, privKey : PrivKeyStates, isMirror : BOOLEAN, frozenSth : BadSigSpellings]
+\* every shape of the connection string with either backend, over every base
+ConnSweepGroup == [backend : BackendStates, connStr : ConnStates]
 Groups == <<KeyGroup, WindowCore, DelayGroup, RejectGroup, EkuGroup, StorageGroup, IdentGroup>>
 
 \* The case set: every pair of field groups in full product with the rest as in a base, and some triples.
@@ -49,6 +51,7 @@ IsSingleCase ==
   \/ \E b \in Bases, p \in GroupPairs : \E x \in Groups[p[1]], y \in Groups[p[2]] : c = Override(b, x @@ y)
   \/ \E b \in Bases, x \in WindowGroup : c = Override(b, x)                                      \* WindowSweep
   \/ \E b \in Bases, x \in FrozenSweepGroup : c = Override(b, x)                                 \* FrozenSweep
+  \/ \E b \in Bases, x \in ConnSweepGroup : c = Override(b, x)                                   \* ConnSweep
   \/ Triple(Base, KeyGroup, WindowSlim, DelayGroup)
   \/ Triple(Base, KeyGroup, StorageGroup, RejectEku)
   \/ Triple(Base, KeyGroup, StorageGroup, IdentGroup)
@@ -58,7 +61,7 @@ IsSingleCase ==
   \/ Triple(RichBase, WindowSlim, DelayGroup, StorageGroup)
 
 AllFields == DOMAIN Base
-TypeOKSingle == DOMAIN c = AllFields /\ c.frozenSth \in FrozenFine
+TypeOKSingle == DOMAIN c = AllFields /\ c.frozenSth \in FrozenFine /\ c.connStr \in ConnStates
 
 \* the decision structure of ValidateLogConfig, one branch per return statement (cross-check of Valid,
 \* which is written from the property text, against config.go; "mysql" is the input on which the code
@@ -81,11 +84,17 @@ CodeAccepts(x) ==
   ELSE IF x.mmd < 0 \/ x.expected < 0 \/ x.expected > x.mmd THEN FALSE
   ELSE IF x.frozenSth \notin {"absent", "okSigned"} THEN FALSE     \* ToSignedTreeHead / VerifySTHSignature, on every call
   ELSE IF x.backend = "ctfe" THEN
-         IF x.connStr = "" THEN FALSE
-         ELSE IF x.connStr \in {"mysql://ok", "postgres://ok"} THEN TRUE
-         ELSE FALSE
+         LET s == ShapeOf[x.connStr] IN
+         IF s.scheme = "none" /\ s.seps = 0 /\ s.rest = "empty" THEN FALSE                      \* the empty string: "missing"
+         ELSE IF s.scheme = "mysql" THEN s.seps = 1 /\ DriverParses(s)                          \* Split gives two parts, ParseDSN accepts
+         ELSE IF s.scheme \in {"postgres", "postgresql"} THEN s.seps = 1 /\ DriverParses(s)     \* as the storage layer splits it
+         ELSE FALSE                                                                             \* unsupported driver
   ELSE TRUE
 TextMatchesCode == Valid(c) = CodeAccepts(c)
+\* the two readings of "usable" coincide on every shape, and the shapes have distinct names
+ASSUME \A s \in ConnShapes : Usable(s) = StorageOpens(s)
+ASSUME \A s, t \in ConnShapes : ConnName(s) = ConnName(t) => s = t
+ASSUME ConnCore \subseteq ConnStates /\ Cardinality(ConnShapes) = 162
 
 Dummy == /\ kind = [isMirror |-> FALSE, isReadonly |-> FALSE, frozen |-> FALSE]
          /\ backend = 0 /\ source = {} /\ served = None /\ hist = <<>>
@@ -100,6 +109,7 @@ AsMulti(x) == [bPresent |-> TRUE, backends |-> <<[name |-> "default", spec |-> "
 FailedIn(k) == {f \in DOMAIN k : ~k[f]}
 ExportSingle == PrintT(<<"CASE", ToJson([c |-> c, valid |-> Valid(c), failed |-> Failed(c),
                                          validAsSet |-> ValidSet(<<c>>), validAsMulti |-> ValidMulti(AsMulti(c)),
+                                         usable |-> c.connStr \in UsableConn,
                                          handlers |-> IF Valid(c) THEN Handlers(c) ELSE {},
                                          validated |-> ValidatedWindow(c)])>>)
 
